@@ -174,7 +174,7 @@ def maporder_stage(prop, oracles, tier, graphs=None, per_job=False):
             if j.get("_maporder") or not r.get("map_sites") or j["mode"] != "dpor" or j.get("no_race_report"):
                 continue
             sc = j["scen"]
-            if (sc["items"] > (1 if tier == "quick" else 2) and sc["graph"] != "gjoin3") or sc["max"] > 2:
+            if (sc["items"] > (1 if tier == "quick" else 2) and sc["graph"] not in ("gjoin3", "g8f", "g8g", "g8e")) or sc["max"] > 2:
                 continue
             if graphs is not None:
                 if sc["graph"] not in graphs:
@@ -220,6 +220,7 @@ def plan_c05(tier, seed):
         # slot configurations: multi-core tasks competing for the slots (partial acquisition)
         add("g2", 2, 1, 2, cores=[2]); add("g13", 1, 1, 2, cores=[2, 2]); add("g13", 1, 1, 3, cores=[2, 2]); add("g3", 2, 1, 2, cores=[2, 1])
         add("g3", 1, 1, 1, runto=["p"], id="C05-g3-runto-p")
+        add("g8f", 2, 1, 2, runto=["p"], id="C05-g8f-runto-p")  # a parameter source that also feeds a process outside the run set
         add("g11", 1, 1, 1, runto=["last"], id="C05-g11-runto-last")
     else:
         for g in ("g1", "g2", "g3", "g4", "g5", "g6", "g7", "g8", "g8g", "g9", "g10", "g10b", "g11", "g12"):
@@ -235,6 +236,7 @@ def plan_c05(tier, seed):
         add("g3", 2, 1, 2, runto=["p"], id="C05-g3-runto-p")
         add("g11", 2, 1, 2, runto=["last"], id="C05-g11-runto-last")
         add("g11", 2, 1, 2, runto=["p"], id="C05-g11-runto-p")
+        add("g8f", 2, 1, 2, runto=["p"], id="C05-g8f-runto-p"); add("g8f", 3, 2, 2, runto=["x"], id="C05-g8f-runto-x")
     # environment deviation: the rename into an absolute destination on another device fails (EXDEV): Run may
     # stop the program, but may not return as if the work were done
     jobs.append(with_delay_fallback(wf("C05", "g2", 1, 1, 1, "cmd", oracles=["nohang", "c05"], events_dep=True, tier=tier, extra="absout", xdev="abs", id="C05-g2-absout-other-device")))
@@ -262,8 +264,8 @@ def plan_c05(tier, seed):
                 jobs.append(nj)
         return jobs
     iof = opfault_stages("C05", ["nohang", "c05", "c04"], tier, [("g3", 1, 1, "cmd", ""), ("g3", 1, 1, "func", ""), ("g7", 1, 1, "cmd", ""), ("g2", 1, 1, "cmd", "subdir"), ("g11", 1, 1, "cmd", "")] + ([] if tier == "quick" else [("g4", 1, 2, "cmd", ""), ("g14a", 1, 1, "cmd", ""), ("g8", 1, 1, "func", "")]))
-    return {"level": "model_checking", "native": True, "race_too": True, "stages": [lambda ctx, prev: jobs] + iof + [stream_first, stream_again],
-            "rule": "every Mazurkiewicz trace of each scenario with start/end/return events mutually dependent (every order not forced by happens-before); at the state where the main thread returns from Run: all started tasks ended, all reference outputs final, no temp dir / FIFO; no deadlock state; + a rename that fails with EXDEV (absolute destination on another device): stopping is fine, returning is not; single injected I/O error: the n-th file-system operation of the run fails with EIO, for every n (default schedule; thorough: + 1 delay) - stop, or return with everything in place; streaming producer with an ordinary second output: run, then run again in place - no FIFO / temp dir left when Run returns; memory-level pass: some scenarios again on the race-instrumented build, where map operations and accesses to mutable struct fields are scheduling points too",
+    return {"level": "model_checking", "native": True, "race_too": True, "stages": [lambda ctx, prev: jobs, maporder_stage("C05", o, tier, graphs=("g8f", "g8g"), per_job=True)] + iof + [stream_first, stream_again],
+            "rule": "every Mazurkiewicz trace of each scenario with start/end/return events mutually dependent (every order not forced by happens-before); at the state where the main thread returns from Run: all started tasks ended, all reference outputs final, no temp dir / FIFO; no deadlock state; + a rename that fails with EXDEV (absolute destination on another device): stopping is fine, returning is not; every other map-iteration order forced for the parameter fan-out scenarios; single injected I/O error: the n-th file-system operation of the run fails with EIO, for every n (default schedule; thorough: + 1 delay) - stop, or return with everything in place; streaming producer with an ordinary second output: run, then run again in place - no FIFO / temp dir left when Run returns; memory-level pass: some scenarios again on the race-instrumented build, where map operations and accesses to mutable struct fields are scheduling points too",
             "assumptions": BASE_ASSUMPTIONS}
 
 
@@ -296,6 +298,10 @@ def plan_c06(tier, seed):
     jobs.append(with_delay_fallback(wf("C06", "g2", 3, 1, 1, oracles=o, tier=tier, pre={"in0.txt.p": "p.out(in=in0.txt;)"}, id="C06-g2-i3-m1-pre0")))
     jobs.append(with_delay_fallback(wf("C06", "g2", 3, 1, 2, oracles=o, tier=tier, pre={"in1.txt.p": "p.out(in=in1.txt;)"}, id="C06-g2-i3-m2-pre1")))
     jobs.append(with_delay_fallback(wf("C06", "g2", 3, 2, 1, "cmd", oracles=o, tier=tier, pre={"in0.txt.p": "p.out(in=in0.txt;)", "in2.txt.p": "p.out(in=in2.txt;)"}, id="C06-g2-i3-m1-pre02-cmd")))
+    # a process that asks for MORE cores per task than the workflow has: whatever the library does with it
+    # (it refuses to start), the weighted sum of what executes never exceeds the maximum
+    for mx, cores in ((2, [3, 1]), (1, [2, 1]), (2, [1, 3])):
+        jobs.append(with_delay_fallback(wf("C06", "g13", 1, 1, mx, oracles=["nohang", "c06"], tier=tier, cores=cores, events_dep=True, id=f"C06-g13-oversize-m{mx}-c{''.join(map(str, cores))}")))
     # tasks connected by a FIFO (real mkfifo / bash, see C17): 2 producer/consumer pairs on 3 slots -
     # commands started and not yet returned never exceed the slots
     for size in ((1,) if tier == "quick" else (1, 65537)):
@@ -828,7 +834,7 @@ def plan_c02(tier, seed):
     o = ["nohang", "clean", "c02", "c04"]
     def stage1(ctx, prev):
         jobs = []
-        combos = [("g2", 2, 2, "cmd"), ("g3", 1, 1, "cmd"), ("g3", 2, 1, "func"), ("g7", 1, 2, "cmd"), ("g8", 1, 1, "cmd"), ("g6b", 2, 1, "func"), ("g3", 1, 1, "cmd", "absout"), ("g2", 1, 1, "cmd", "subdir"), ("g7b", 1, 2, "cmd"), ("g8d", 1, 1, "cmd")]
+        combos = [("g2", 2, 2, "cmd"), ("g3", 1, 1, "cmd"), ("g3", 2, 1, "func"), ("g7", 1, 2, "cmd"), ("g8", 1, 1, "cmd"), ("g6b", 2, 1, "func"), ("g3", 1, 1, "cmd", "absout"), ("g2", 1, 1, "cmd", "subdir"), ("g7b", 1, 2, "cmd"), ("g8d", 1, 1, "cmd"), ("g3", 1, 1, "cmd", "setout-only")]
         if tier != "quick":
             combos += [("g3", 2, 2, "cmd"), ("g6", 1, 2, "cmd"), ("g7", 2, 2, "func"), ("g4", 1, 2, "cmd"), ("g8", 2, 2, "func")]
         for combo in combos:
